@@ -277,7 +277,7 @@ func cmdCheck(args []string) int {
 	// known findings that no longer fail are simply not printed (fixed entries suppress nothing)
 
 	// missing baseline obligations
-	if haveBase {
+	if haveBase && !*rebaseline {
 		for n := range base.Obligations {
 			if _, ok := byName[n]; !ok {
 				undecided = append(undecided, "baseline obligation no longer generated: "+n)
@@ -473,6 +473,20 @@ func (e *Engine) coverObligations(results []*UnitResult) []*Obligation {
 	var out []*Obligation
 	for _, r := range results {
 		seen := map[int]bool{}
+		if len(r.Obls) > 0 {
+			// declarations and axioms alone must be satisfiable
+			o := r.Obls[0]
+			i := strings.Index(o.SMTFile, "(assert (")
+			hdr := o.SMTFile
+			if j := strings.LastIndex(o.SMTFile, "; axiom "); j >= 0 {
+				hdr = o.SMTFile[:j+strings.Index(o.SMTFile[j:], "\n")+1]
+			} else if i >= 0 {
+				hdr = ""
+			}
+			if hdr != "" {
+				out = append(out, &Obligation{Name: o.Func + ".cover.axioms", Kind: "cover", Func: o.Func + " (axioms)", Goal: "false", Desc: "axioms consistent", SMTFile: hdr + "(check-sat)\n"})
+			}
+		}
 		for _, o := range r.Obls {
 			if o.Kind != "post" && o.Kind != "frame" && o.Kind != "lemma" {
 				continue
